@@ -122,6 +122,70 @@ class Ctx:
         return h.hexdigest()[:24]
 
 
+def in_fork(fn, *args):
+    """Run fn(*args) in a forked child and return its (pickled) result.
+
+    Run isolation: every run starts from the same process state — the warmed-up pool worker —
+    and nothing a run leaves behind at module level (caches, globals, dask's thread pools,
+    numpy's generator) can reach another run.  That is what makes a run a function of
+    (VERIF_SEED, property, family, index) alone, and a replay in a fresh interpreter (warm-up,
+    then the run) the same execution."""
+    import pickle
+
+    rfd, wfd = os.pipe()
+    pid = os.fork()
+    if pid == 0:
+        code = 0
+        try:
+            os.close(rfd)
+            try:
+                payload = pickle.dumps(("ok", fn(*args)))
+            except BaseException:  # noqa: BLE001
+                payload = pickle.dumps(("err", traceback.format_exc()))
+                code = 0
+            with os.fdopen(wfd, "wb") as f:
+                f.write(payload)
+        except BaseException:  # noqa: BLE001
+            code = 5
+        finally:
+            os._exit(code)
+    os.close(wfd)
+    chunks = []
+    with os.fdopen(rfd, "rb") as f:
+        while True:
+            b = f.read(1 << 20)
+            if not b:
+                break
+            chunks.append(b)
+    _, st = os.waitpid(pid, 0)
+    data = b"".join(chunks)
+    if not data:
+        raise HarnessError(f"isolated run died without a result (wait status {st})")
+    kind, val = pickle.loads(data)
+    if kind == "err":
+        raise HarnessError("isolated run raised:\n" + val)
+    return val
+
+
+def run_isolated(scn, prop, family, idx, ch_spec, tier):
+    """run_once in a forked child.  ch_spec: ("seed", int) or ("values", list)."""
+
+    mod = sys.modules.get(scn.__module__)
+
+    def go():
+        ch = Chooser(seed=ch_spec[1]) if ch_spec[0] == "seed" else Chooser(values=ch_spec[1])
+        r = run_once(scn, prop, family, idx, ch, tier)
+        if hasattr(mod, "export_state"):
+            r["_state"] = mod.export_state()  # e.g. newly computed (deterministic) oracle values
+        return r
+
+    r = in_fork(go)
+    st = r.pop("_state", None)
+    if st is not None:
+        mod.import_state(st)
+    return r
+
+
 _KNOWN_CACHE = []
 
 
@@ -169,7 +233,12 @@ def run_once(scn, prop: str, family: str, idx: int, ch: Chooser, tier: str) -> d
 # --------------------------------------------------------------------------- shrinker
 
 
-def shrink(scn, prop, family, idx, tier, values, check_name, max_runs=200, max_wall=120.0):
+def _run_inproc(scn, prop, family, idx, ch_spec, tier):
+    ch = Chooser(seed=ch_spec[1]) if ch_spec[0] == "seed" else Chooser(values=ch_spec[1])
+    return run_once(scn, prop, family, idx, ch, tier)
+
+
+def shrink(scn, prop, family, idx, tier, values, check_name, max_runs=200, max_wall=120.0, runner=_run_inproc):
     """Delta-debug the integer list while the same check of the same property fails.
 
     A candidate is accepted only if the trace *actually drawn* by its run is strictly simpler
@@ -197,7 +266,7 @@ def shrink(scn, prop, family, idx, tier, values, check_name, max_runs=200, max_w
             return False
         runs[0] += 1
         try:
-            r = run_once(scn, prop, family, idx, Chooser(values=cand), tier)
+            r = runner(scn, prop, family, idx, ("values", cand), tier)
         except Exception:
             return False  # a harness error during shrinking never counts
         if r["violation"] is None or r["violation"]["check"] != check_name:
@@ -330,11 +399,14 @@ def _worker_init(prop, tier, stop_event=None):
     _WORKER["mod"] = mod
 
 
-def run_and_shrink(scn, prop, family, idx, tier, ch, do_shrink=True):
-    """One run in a pool worker; the first worker that sees a violation minimises it."""
+def run_and_shrink(scn, prop, family, idx, tier, ch_spec, do_shrink=True):
+    """One run in a pool worker; the first worker that sees a violation minimises it.
+    ch_spec: ("seed", int) | ("values", list).  Runs are isolated in forked children unless
+    the property module says ISOLATE = False (C17 isolates per configuration instead)."""
     mod = _WORKER.get("mod")
     stop = _WORKER.get("stop")
-    r = run_once(scn, prop, family, idx, ch, tier)
+    runner = run_isolated if getattr(mod, "ISOLATE", True) else _run_inproc
+    r = runner(scn, prop, family, idx, ch_spec, tier)
     first = False
     if r["violation"] is not None:
         if stop is not None:
@@ -345,10 +417,10 @@ def run_and_shrink(scn, prop, family, idx, tier, ch, do_shrink=True):
             first = True
     if r["violation"] is not None and do_shrink and first:
         mr, mw = getattr(mod, "SHRINK", (200, 120.0))
-        mv, nruns = shrink(scn, prop, family, idx, tier, r["values"], r["violation"]["check"], mr, mw)
-        m = run_once(scn, prop, family, idx, Chooser(values=mv), tier)
+        mv, nruns = shrink(scn, prop, family, idx, tier, r["values"], r["violation"]["check"], mr, mw, runner)
+        m = runner(scn, prop, family, idx, ("values", mv), tier)
         if m["violation"] is None or m["violation"]["check"] != r["violation"]["check"]:
-            m = run_once(scn, prop, family, idx, Chooser(values=r["values"]), tier)
+            m = runner(scn, prop, family, idx, ("values", r["values"]), tier)
             nruns = -nruns
         if m["violation"] is not None:
             r["minimized"] = m
@@ -374,8 +446,7 @@ def _worker_run(args):
             break
         faulthandler.dump_traceback_later(900, exit=True)
         try:
-            ch = Chooser(seed=derive_seed(verif_seed, prop, family, idx))
-            out.append(run_and_shrink(scn, prop, family, idx, tier, ch, do_shrink))
+            out.append(run_and_shrink(scn, prop, family, idx, tier, ("seed", derive_seed(verif_seed, prop, family, idx)), do_shrink))
         except Exception:
             out.append({"idx": idx, "family": family, "harness_error": traceback.format_exc()})
         finally:
